@@ -231,6 +231,11 @@ fn doc(k: usize) -> Result<Doc, String> {
                 for c in e.child_elems() {
                     cp.push((e.local.clone(), c.end));
                 }
+            } else if !container && !e.self_closing {
+                // scalar elements (String / Float / Integer): in front of and behind their own text
+                cp.push((format!("{}#before-text", e.local), e.open_end + 1));
+                let close = e.end - (e.local.len() + if e.prefix.is_empty() { 0 } else { e.prefix.len() + 1 } + 3);
+                cp.push((format!("{}#after-text", e.local), close));
             }
         }
         for c in e.child_elems() {
